@@ -98,16 +98,24 @@ static int masi_test(HIO_HANDLE *f, char *t, const int start)
 	if (hio_read32b(f) != MAGIC_FILE) 
 		return -1;
 
-	hio_read32b(f);
-	val = hio_read32l(f);
-	hio_seek(f, val, SEEK_CUR);
-
-	if (hio_read32b(f) == MAGIC_TITL) {
+	/* The loader takes the title from a TITL chunk wherever it is
+	 * (usually after SDFT): look for it the same way. */
+	for (;;) {
+		uint32 id = hio_read32b(f);
 		val = hio_read32l(f);
-		libxmp_read_title(f, t, val);
-	} else {
-		libxmp_read_title(f, t, 0);
+		if (hio_error(f) || hio_eof(f)) {
+			break;
+		}
+		if (id == MAGIC_TITL) {
+			libxmp_read_title(f, t, val);
+			return 0;
+		}
+		if (val < 0 || hio_seek(f, val, SEEK_CUR) < 0) {
+			break;
+		}
 	}
+
+	libxmp_read_title(f, t, 0);
 
 	return 0;
 }
